@@ -31,6 +31,7 @@ func init() {
 			"with 3 registered procedures (immediate, waits for its context, progressive), 2 subscriptions; 2-3 episodes of: 3-6 API calls left pending (Subscribe/Register/Publish-ack/Call/Call-with-progress/Unsubscribe/Unregister), " +
 			"a burst of 20-40 hostile router messages (every message type incl. client-to-router ones, templates with fields/details/arguments replaced by hostile values, payload-passthru details of every type, " +
 			"ids of pending requests / live invocations / unknown, duplicate and triplicate invocations, progressive chunks, replies scheduled at 0, 1 ms, T/2, T-1ms, T, T+1ms, 2T (the calls' context deadline), 2T+1ms, 3T), " +
+			"every 4th case the router answers no CANCEL with ERROR but streams RESULTs for the cancelled request every T/2 for 12 T (Call must return one response timeout after its CANCEL), " +
 			"then a liveness probe (a new Subscribe answered properly must succeed, a valid INVOCATION must be answered); ending by router GOODBYE / ABORT / transport drop (also mid-burst) / Close answered / Close unanswered / Close with calls pending; " +
 			"every 6th case: the router misbehaves during the join (nothing, ABORT, GOODBYE, garbage, WELCOME without/with hostile roles and details, CHALLENGE for offered/unknown methods, then a second answer, delays around the response timeout): NewClient returns within its timeouts, closes the peer on failure, leaves no goroutine (CH6, CH7); " +
 			"oracles: no panic, receive loop not blocked at quiescence, probe served, every API call returned within 4T of virtual time after the burst, Done() closed after GOODBYE/ABORT/EOF, Close returns, " +
@@ -60,6 +61,11 @@ func runC17(c *Case) {
 	ending := pick(r, []string{"goodbye", "abort", "drop", "drop-midburst", "goodbye-midburst", "close", "close-noanswer", "close-pending"})
 	episodes := 2 + r.IntN(2)
 	features := chance(r, 75) // the router's WELCOME announces payload passthru etc.
+	// every 4th case the dealer part of the router takes CANCEL and never answers it with ERROR: it goes on
+	// sending RESULTs (progressive and final alternating) for the cancelled request every T/2 for 12 T.
+	// Call must still return one response timeout after its CANCEL (judged by CH4).
+	cancelStream := c.Index%4 == 2
+	streams := 0
 	var ser serialize.Serializer
 	switch serName {
 	case "json":
@@ -122,6 +128,25 @@ func runC17(c *Case) {
 				name, req = string(x.Procedure), uint64(x.Request)
 				ok = &wamp.Result{Request: x.Request, Details: wamp.Dict{}, Arguments: wamp.List{"fine"}}
 			case *wamp.Cancel:
+				if cancelStream {
+					streams++
+					id := x.Request
+					go func() {
+						for i := 0; i < 24; i++ {
+							select {
+							case <-time.After(tmo / 2):
+							case <-w.cli.Done():
+								return
+							case <-w.rtr.quit:
+								return
+							}
+							if !w.rtr.Send(&wamp.Result{Request: id, Details: wamp.Dict{"progress": i%2 == 0}, Arguments: wamp.List{"still running"}}) {
+								return
+							}
+						}
+					}()
+					return nil
+				}
 				return []wamp.Message{&wamp.Error{Type: wamp.CALL, Request: x.Request, Details: wamp.Dict{}, Error: "wamp.error.canceled"}}
 			case *wamp.Yield:
 				if pr, _ := x.Options["progress"].(bool); !pr {
@@ -625,10 +650,11 @@ func runC17(c *Case) {
 	}
 	c.NT = len(tuples) >= 10 && pendingHit > 0
 	c.Add("hostile_messages", float64(len(script)))
+	c.Add("cancels_answered_by_a_result_stream", float64(streams))
 	c.SetMax("distinct_message_shapes_in_a_case", float64(len(tuples)))
-	c.Key = fmt.Sprintf("tmo=%v q=%d ser=%s end=%s feat=%v|%s", tmo, queue, serName, ending, features, strings.Join(script, "\n"))
+	c.Key = fmt.Sprintf("tmo=%v q=%d ser=%s end=%s feat=%v cs=%v|%s", tmo, queue, serName, ending, features, cancelStream, strings.Join(script, "\n"))
 	if c.Index < 3 || len(c.Viol) > 0 {
-		c.Sample = map[string]any{"response_timeout": tmo.String(), "queue": queue, "serializer": serName, "ending": ending, "router_announces_features": features, "script": clip(script, 60)}
+		c.Sample = map[string]any{"response_timeout": tmo.String(), "queue": queue, "serializer": serName, "ending": ending, "router_announces_features": features, "cancel_answered_by_result_stream": cancelStream, "script": clip(script, 60)}
 	}
 }
 
